@@ -64,6 +64,38 @@ def check(pm: ProgramModel, ctx: Ctx) -> None:
         rt = roundtrip(mb.model(root, []))
         report("C05-TYPE", f"abstract={flag}", wwhere, rt, f"abstract flag {flag}", owns=("abstract",))
     cd.abstract_positions(mb, "TYPE")
+    # files of the older layout carry the flag as the text 'True' / 'False' (any letter case): the document written for
+    # a model, with its flags replaced by those texts, denotes the same model
+    import json as _json
+    from ..roundtrip import describe, diff
+    for spell in ("True/False", "true/false", "TRUE/FALSE"):
+        yes, no = spell.split("/")
+        root = mb.feature("Root", is_abstract=True)
+        mb.relation(root, [mb.feature("A", is_abstract=False)], 1, 1)
+        mb.relation(root, [mb.feature("B", is_abstract=True)], 0, 1)
+        m_old = mb.model(root, [])
+        w_ = run_writer(pm, W, m_old)
+        if w_["raise"] or w_["written"] is None:
+            continue
+        doc_ = _json.loads(w_["written"])
+
+        def retext(node: Any) -> None:
+            if isinstance(node, dict):
+                if isinstance(node.get("abstract"), bool):
+                    node["abstract"] = yes if node["abstract"] else no
+                for v_ in node.values():
+                    retext(v_)
+            elif isinstance(node, list):
+                for v_ in node:
+                    retext(v_)
+        retext(doc_)
+        vfs_ = VFS()
+        vfs_.files[PATH] = _json.dumps(doc_)
+        r_ = run_reader(pm, R, vfs_)
+        dd_ = [("raise", str(r_["raise"][0]))] if r_["raise"] else diff(describe(m_old), describe(r_["model"]))
+        ctx.check(not dd_, "C05-TYPE", f"abstract-as-text:{spell}", wwhere,
+                  f"a document that spells the abstract flag as the text {yes!r} / {no!r} denotes the same model",
+                  bad=f"abstract flag spelled {yes!r} / {no!r}: {dd_[0][1] if dd_ else ''}")
 
     def attributed(f: AObj) -> None:
         f._f["attributes"].append(mb.attribute("note", "x y", f))
